@@ -923,6 +923,79 @@ pub fn c13(ctx: &Ctx, st: &mut Stats) {
         let p = if r.chance(1, 2) { grammar::gen_call(&mut r, ctx.tier.gcfg()) } else { grammar::gen_program(&mut r, ctx.tier.gcfg()) };
         c13_one(st, &p, &mut cs);
     }
+    // wide and deep calls: tens to thousands of arguments in one call (named with blanks around
+    // the '=', positional, two-word values that are first tried as names), and calls nested in
+    // named-argument position 30...400 deep: every '(' ',' '=' ')' is still a delimiter token
+    let n = ctx.draws(40, 400);
+    for _ in 0..n {
+        let mut p = grammar::Prog { s: String::new(), marks: Vec::new(), deletions: Vec::new(), kinds: Default::default(), nest_pairs: Default::default(), max_depth: 0 };
+        let head = r.pick(&["", "%put ", "%let v = ", "x = ", "data a; y = "]);
+        let name = r.pick(&["%m", "%calc1", "%größe", "%_n"]);
+        p.s.push_str(head);
+        if r.chance(1, 2) {
+            let nargs = r.pick(&[40usize, 60, 76, 77, 78, 79, 80, 81, 100, 127, 128, 129, 255, 256, 257, 300, 1000, 3000]);
+            p.s.push_str(name);
+            p.marks.push(Mark::Delim { pos: p.s.len(), ty: TokenType::LPAREN, hidden: false });
+            p.s.push('(');
+            let style = r.below(5);
+            for i in 0..nargs {
+                if i > 0 {
+                    p.marks.push(Mark::Delim { pos: p.s.len(), ty: TokenType::COMMA, hidden: false });
+                    p.s.push(',');
+                    if r.chance(1, 3) {
+                        p.s.push(' ');
+                    }
+                }
+                match if style == 4 { r.below(4) } else { style } {
+                    0 => {
+                        p.s.push_str(&format!("k{i} "));
+                        p.marks.push(Mark::Delim { pos: p.s.len(), ty: TokenType::ASSIGN, hidden: false });
+                        p.s.push_str(&format!("= v{i}"));
+                    }
+                    1 => {
+                        p.s.push_str(&format!("k{i}/*c*/"));
+                        p.marks.push(Mark::Delim { pos: p.s.len(), ty: TokenType::ASSIGN, hidden: false });
+                        p.s.push_str("=1");
+                    }
+                    2 => p.s.push_str(&format!("a b{i}")),
+                    _ => {
+                        p.s.push_str(&format!("k{i}"));
+                        p.marks.push(Mark::Delim { pos: p.s.len(), ty: TokenType::ASSIGN, hidden: false });
+                        p.s.push_str("=&x");
+                    }
+                }
+            }
+            p.marks.push(Mark::Delim { pos: p.s.len(), ty: TokenType::RPAREN, hidden: false });
+            p.s.push(')');
+            st.count("wide_calls", 1);
+        } else {
+            let depth = r.pick(&[20usize, 30, 38, 39, 40, 41, 42, 60, 64, 65, 100, 130, 260, 400]);
+            let pad = r.pick(&["", " ", "/*c*/"]);
+            for _ in 0..depth {
+                p.s.push_str(name);
+                p.marks.push(Mark::Delim { pos: p.s.len(), ty: TokenType::LPAREN, hidden: false });
+                p.s.push_str("(a");
+                p.s.push_str(pad);
+                p.marks.push(Mark::Delim { pos: p.s.len(), ty: TokenType::ASSIGN, hidden: false });
+                p.s.push('=');
+            }
+            p.s.push_str("x, y");
+            for _ in 0..depth {
+                p.marks.push(Mark::Delim { pos: p.s.len(), ty: TokenType::RPAREN, hidden: false });
+                p.s.push(')');
+            }
+            st.count("deep_named_arg_calls", 1);
+        }
+        if !head.is_empty() {
+            p.s.push(';');
+        }
+        c13_one(st, &p, &mut cs);
+        let mut cut = p.s.len().min(200);
+        while !p.s.is_char_boundary(cut) {
+            cut -= 1;
+        }
+        st.nontrivial(p.s.as_bytes(), || sample(&p.s[..cut], None, "wide / deep call: every delimiter position checked"));
+    }
     st.count("delimiter_positions_checked", cs.delims as i128);
     st.count("operator_positions_checked", cs.ops as i128);
     st.count("integer_operands_checked", cs.ints as i128);
